@@ -1,5 +1,7 @@
 """C08  Exceptions reach the innermost active handler; finally always runs  (Machine.tla structural completions)."""
 import profcheck
+import scenarios
+import vlib
 
 PROP = "C08"
 EXC = ["print", "var", "try", "catch", "finally", "throw", "while", "break", "continue", "fn", "call", "return", "exprstmt"]
@@ -20,6 +22,8 @@ def main(tier, seed):
          "simulate": 4000 if q else 50000, "seed_offset": 5},
     ]
     rep = profcheck.run(PROP, tier, seed, plan, feature=throws)
+    bins = [("dev", vlib.build_harness("dev")), ("release", vlib.build_harness("release"))]
+    profcheck.run_scenarios(rep, "exception", scenarios.exception_scenarios(), bins, PROP)
     rep.coverage["exhaustive"] = True
     rep.coverage["rule"] = ("programs nesting try/catch/finally with loops and functions, explicit throws, failing built-in operations and throws "
                             "from callees, every exit path from every block; the reference machine delivers completions structurally (innermost "
